@@ -542,16 +542,15 @@ func specs() []spec {
 }
 
 func runIR(repo string) (string, error) {
-	ld := &loader{repo: repo, pkgs: map[string]*pkgInfo{}}
+	bl := buildAll(repo)
+	if bl.err != nil {
+		return "", bl.err
+	}
 	var b strings.Builder
 	b.WriteString(ex.Header("PipeIR", "dosnode/dos_stages.go dos_query_handler.go dos_chain_handler.go share/dkg/pedersen/pdkg.go pdkg_pipes.go utils/utils.go onchain/eth_helpers.go eth_subscribe.go p2p/client.go server.go"))
 	b.WriteString("import DosModel.Model.PipeIR\nnamespace Dos.Gen.Pipes\nopen Dos.Pipe\n\n")
 	var names []string
-	for _, s := range specs() {
-		p, err := s.mk(ld)
-		if err != nil {
-			return "", err
-		}
+	for _, p := range bl.pipes {
 		for _, w := range p.warns {
 			fmt.Fprintf(&b, "-- note: %s\n", w)
 		}
